@@ -28,7 +28,7 @@ import (
 func init() { register("c11", runC11) }
 
 type c11Ev struct {
-	T        string      `json:"t"`                  // "block" | "drop" | "gc"
+	T        string      `json:"t"`                  // "block" | "drop" | "gc" | "restart"
 	KV       [][2]string `json:"kv,omitempty"`       // [key hex, value hex or "-" (delete)]
 	Single   bool        `json:"single,omitempty"`   // trie driver: Put/Delete one by one instead of PutBatch
 	Collapse int         `json:"collapse,omitempty"` // trie driver: Collapse(depth-1) after the flush when > 0
@@ -670,6 +670,19 @@ func c11RunHist(co *caseOut, kind string, in c11Input) {
 			}
 			coqEvs = append(coqEvs, fmt.Sprintf("HBlock %s %s %s %s %s", c11CoqPairs(deltas), c11CoqPairs(inits),
 				coqBool(in.Via == "trie" && ev.Collapse > 0), c11CoqPairs(occs), c11CoqDump(ids, d)))
+		case "restart":
+			// the module re-initialised from the store, as after a restart of the node: the in-memory root is a hash node
+			if in.Via != "module" || len(contents[n]) == 0 {
+				continue
+			}
+			m2 := stateroot.NewModule(cfg, nil, zap.NewNop(), store)
+			var ierr error
+			if p := catch(func() { ierr = m2.Init(uint32(n)) }); p != "" || ierr != nil {
+				viol(fmt.Sprintf("the module does not re-initialise from the store: %s %v [event %d, restart]", p, ierr, evi), nil)
+				aborted = true
+				break
+			}
+			mod = m2
 		case "gc":
 			if mode != mpt.ModeGC {
 				continue
@@ -721,10 +734,23 @@ func c11RunHist(co *caseOut, kind string, in c11Input) {
 // ---- generator ----
 
 func c11GenHist(r *rng, mode, via string, drops bool, gcEvery int) c11Input {
+	return c11GenHistShape(r, mode, via, drops, gcEvery, "branch")
+}
+
+// shape of the in-memory root the key pool produces: "branch" (first nibbles 0 and a), "ext" (every key starts with
+// nibble f: an extension, as on a chain with native contracts only), "leaf" (one or two keys), "empty" (a dropped block
+// on the empty trie comes first)
+func c11GenHistShape(r *rng, mode, via string, drops bool, gcEvery int, shape string) c11Input {
 	// key pool built to share long prefixes and to contain keys that are prefixes of one another
 	prefixes := [][]byte{{0x01, 0x02}, {0x01, 0x02, 0x03, 0x04}, {0x01, 0x20}, {0xa0}, {0x01}, {0x01, 0x02, 0x03}}
+	if shape != "branch" {
+		prefixes = [][]byte{{0xf1, 0x02}, {0xf1, 0x02, 0x03, 0x04}, {0xf1, 0x20}, {0xfa}, {0xf1}, {0xf1, 0x02, 0x03}}
+	}
 	var pool [][]byte
 	nk := 5 + r.intn(9)
+	if shape == "leaf" {
+		nk = 1 + r.intn(2)
+	}
 	for len(pool) < nk {
 		k := append([]byte{}, pick(r, prefixes)...)
 		for i, m := 0, r.intn(3); i < m; i++ {
@@ -740,8 +766,11 @@ func c11GenHist(r *rng, mode, via string, drops bool, gcEvery int) c11Input {
 	var lastDeleted [][2]string
 	for b := 0; b < nb; b++ {
 		ev := c11Ev{T: "block"}
-		if drops && b > 0 && r.chance(35) {
+		if drops && (b > 0 || shape == "empty") && (r.chance(35) || (shape == "empty" && b == 0)) {
 			ev.T = "drop"
+		}
+		if drops && via == "module" && shape != "branch" && b > 1 && r.chance(20) {
+			in.Ops = append(in.Ops, c11Ev{T: "restart"})
 		}
 		if via == "trie" {
 			ev.Single = r.chance(30)
@@ -829,6 +858,8 @@ func runC11(args []string) error {
 			if i%2 == 0 {
 				c11RunHist(co, "rc_drop", c11GenHist(r, mode, "module", true, gcEvery))
 			}
+			// dropped blocks on the other shapes of the in-memory root
+			c11RunHist(co, "rc_drop", c11GenHistShape(r, mode, "module", true, gcEvery, []string{"ext", "leaf", "empty"}[i%3]))
 		}
 	}
 	return co.finish()
